@@ -127,7 +127,7 @@ func respell(t *rapid.T) (*gen.Style, []string, bool) {
 	st := gen.DefaultStyle()
 	var names []string
 	permute := false
-	all := []string{"newline", "indent", "comments", "multiline", "spread", "quote-names", "trailing-comma", "blank-lines", "rule-order", "space-before-colon", "empty-annotations"}
+	all := []string{"newline", "indent", "comments", "multiline", "spread", "quote-names", "trailing-comma", "blank-lines", "rule-order", "space-before-colon", "empty-annotations", "mixed-annotations", "enum-item-notes", "note-on-next-line"}
 	n := rapid.IntRange(1, 5).Draw(t, "nrewrites")
 	for _, r := range rapid.Permutation(all).Draw(t, "rewrites")[:n] {
 		names = append(names, r)
@@ -150,6 +150,15 @@ func respell(t *rapid.T) (*gen.Style, []string, bool) {
 			st.BlankLines = true
 		case "space-before-colon":
 			st.SpaceBeforeColon = true
+		case "mixed-annotations":
+			st.MixedAnn = rapid.IntRange(1, 2).Draw(t, "mixedAnn") // inline and multi-line annotations side by side
+		case "enum-item-notes":
+			st.AutoItemNotes = true // notes on enum items (only possible inside multi-line annotations)
+			if !st.MultiLine && st.MixedAnn == 0 {
+				st.MixedAnn = rapid.IntRange(1, 2).Draw(t, "mixedAnnForNotes")
+			}
+		case "note-on-next-line":
+			st.NoteNextLine = true
 		case "empty-annotations":
 			st.EmptyAnn = rapid.IntRange(1, 3).Draw(t, "emptyAnn") // bare "//" after values without rules
 		case "rule-order":
@@ -318,6 +327,50 @@ func TestDocumentRespelling(t *testing.T) {
 		checkDoc(t, c)
 		run.Eval(chkDoc, escapes > 0 || len(bt) != len(a), sp.Schema, string(a), string(bt))
 		run.Sample(chkDoc, c)
+	})
+}
+
+// Scalar rule sets with their boundary probes (one character inside / outside a length bound,
+// regex near-misses, enum and const neighbours): every string probe in two escape spellings.
+func TestProbeRespelling(t *testing.T) {
+	run.SkipIfReplaying(t)
+	defer run.Done(t, chkDoc)
+	rapid.Check(t, func(t *rapid.T) {
+		sn, probes := gen.ScalarCase(t, "sc")
+		if sn.Lit != ref.KString && sn.Rule("enum") == nil {
+			return
+		}
+		root := sn
+		wrap := rapid.IntRange(0, 2).Draw(t, "wrap")
+		switch wrap {
+		case 1:
+			root = &ref.SNode{Kind: ref.SObj, Props: []ref.SProp{{Key: "k", KeyTok: `"k"`, Val: sn}}}
+		case 2:
+			root = &ref.SNode{Kind: ref.SArr, Items: []*ref.SNode{sn}}
+		}
+		sp := lib.Spec{Schema: string(gen.PrintSchema(root, nil))}
+		n := 0
+		for _, p := range probes {
+			if p.Val.Kind != ref.KString || n >= 8 {
+				continue
+			}
+			n++
+			mk := func(tok string) string {
+				switch wrap {
+				case 1:
+					return `{"k":` + tok + `}`
+				case 2:
+					return "[" + tok + "]"
+				}
+				return tok
+			}
+			a := mk(gen.Quote(p.Val.Str))
+			b := mk(gen.Respell(t, p.Val.Str, "rs"))
+			c := DocCase{Spec: sp, A: a, B: b}
+			checkDoc(t, c)
+			run.Eval(chkDoc, a != b, sp.Schema, a, b)
+			run.Label("probe:" + p.Label)
+		}
 	})
 }
 
